@@ -151,6 +151,10 @@ func observe(c *stree.Cursor[int], r *ref, pos int, what string) *mc.Failure {
 		if n != 0 {
 			return mc.Failf(0, "%s: invalid cursor Inorder yields %d keys", what, n)
 		}
+		// Clone of an invalid or nil cursor is harmless too, and invalid
+		if cl := c.Clone(); cl.Valid() || cl.Key() != 0 {
+			return mc.Failf(0, "%s: the Clone of an invalid cursor is valid (key %d)", what, cl.Key())
+		}
 		return nil
 	}
 	if c.Key() != pos {
